@@ -295,6 +295,7 @@ func verifMain(args []string) int {
 	dir := args[5]
 	o := newOut(dir)
 	f(o, newRng(seed), n, args[2] == "thorough")
+	glueReport(o)
 	o.close(dir)
 	return 0
 }
